@@ -496,16 +496,27 @@ impl<'a> Judge<'a> {
                                 let sig = if prot { "protected-node-accessed:drop".to_string() } else { format!("drop_object:{}-dropped-by-other-package", if k.class == Class::Reservation { "address-reservation" } else { "object" }) };
                                 self.violate(shard, &sig, actor, st, Some(k), json!({}));
                             }
-                        } else if matches!(rel, Rel::Own | Rel::OwnInner | Rel::Proof) && k.class == Class::Object {
+                        } else if matches!(rel, Rel::Own | Rel::OwnInner) && k.class == Class::Object {
                             self.record(shard, actor, st, &relname, "allowed");
                             if !ok && is_access_error(&errs) {
-                                let sig = if rel == Rel::Proof { "drop_object:proof-drop-refused-with-access-error" } else { "drop_object:own-object-drop-refused-with-access-error" };
-                                self.violate(shard, sig, actor, st, Some(k), json!({}));
+                                self.violate(shard, "drop_object:own-object-drop-refused-with-access-error", actor, st, Some(k), json!({}));
                             }
                         } else {
                             self.record(shard, actor, st, &relname, "log");
                         }
                     }
+                }
+            }
+            Op::DropProof { .. } => {
+                let kind = st.target.and_then(|n| self.kind_of(&n));
+                let borrowed = st.target.map(|n| self.borrowed.contains(&(st.frame, n))).unwrap_or(false);
+                if kind.as_ref().map(|k| k.is_proof()).unwrap_or(false) && !borrowed {
+                    self.record(shard, actor, st, "proof-held-by-actor", "allowed");
+                    if !ok && (is_access_error(&errs) || errs.contains("Unauthorized")) {
+                        self.violate(shard, "proof_drop:holder-refused-with-access-error", actor, st, kind.as_ref(), json!({}));
+                    }
+                } else {
+                    self.record(shard, actor, st, "not-a-held-proof", "log");
                 }
             }
             Op::Globalize { t, reservation, .. } => {
@@ -669,7 +680,9 @@ pub fn judge_tx(shard: &mut Shard, world: &PWorld, launch: &Launch, r: &PExec) -
     let mut j = Judge::new(world, pre, launch);
     j.run(shard, &r.trace);
     j.post(shard, receipt, world.ledger.db());
-    shard.seen("c50:outcome_classes", &rv_ledger::outcome_class(receipt));
+    let oc = rv_ledger::outcome_class(receipt);
+    shard.seen("c50:outcome_classes", &oc);
+    shard.count(&format!("c50:tx_outcome|{oc}"));
     j.violations
 }
 
@@ -681,6 +694,7 @@ enum Sym {
     Obj(usize),
     Inner(usize),
     Bucket,
+    EmptyBucket,
     Proof,
     Vault,
     Module,
@@ -714,6 +728,8 @@ struct Gen<'a> {
     terminal_budget: u32,
 }
 
+/// number of global references every frame receives (runners, packages, resource)
+const AMBIENT: usize = 6;
 const KEYS: [&[u8]; 4] = [b"a", b"b", b"c", b"store"];
 const FOREIGN_NAMES: [&str; 8] = ["FungibleVault", "Account", "Metadata", "Worktop", "FungibleBucket", "SysProbeX", "", "Package"];
 
@@ -806,8 +822,16 @@ impl<'a> Gen<'a> {
                     syms.insert(dst, Sym::Store);
                     next += 1;
                 }
-                13..=18 => {
-                    let (package, blueprint, sym) = match self.rng.below(8) {
+                13..=15 => {
+                    let choice = self.rng.below(8);
+                    if choice >= 5 {
+                        // nobody in this world can consume such a reservation: the transaction will fail
+                        if self.terminal_budget == 0 {
+                            continue;
+                        }
+                        self.terminal_budget -= 1;
+                    }
+                    let (package, blueprint, sym) = match choice {
                         0..=2 => (self.ids.pkg[me], BP.to_string(), Sym::Res(Some(me))),
                         3..=4 => (self.ids.pkg[other], BP.to_string(), Sym::Res(Some(other))),
                         5 => (ACCOUNT_PACKAGE, "Account".to_string(), Sym::Res(None)),
@@ -818,7 +842,11 @@ impl<'a> Gen<'a> {
                     syms.insert(dst, sym);
                     next += 1;
                 }
-                19..=27 => {
+                16..=27 => {
+                    if !ctx.is_method && self.terminal_budget == 0 && self.rng.chance(3, 4) {
+                        // a function frame cannot keep vaults / modules: they would go back to the caller
+                        continue;
+                    }
                     match self.rng.below(6) {
                         0 | 1 => {
                             ops.push(Op::CreateVault { dst, resource: self.ids.res });
@@ -826,7 +854,7 @@ impl<'a> Gen<'a> {
                         }
                         2 => {
                             ops.push(Op::CreateBucket { dst, resource: self.ids.res });
-                            syms.insert(dst, Sym::Bucket);
+                            syms.insert(dst, Sym::EmptyBucket);
                         }
                         3 => {
                             if let Some(b) = self.pick_slot(&syms, |s| *s == Sym::Bucket) {
@@ -837,7 +865,14 @@ impl<'a> Gen<'a> {
                             }
                         }
                         4 => {
-                            ops.push(Op::CreateModule { dst, which: self.rng.below(3) as u8 });
+                            // module objects are transient (pinned): they can neither be dropped by the probe nor
+                            // persisted, so the transaction cannot commit afterwards
+                            if self.terminal_budget == 0 {
+                                continue;
+                            }
+                            self.terminal_budget -= 1;
+                            let which = self.rng.below(3) as u8;
+                            ops.push(Op::CreateModule { dst, which });
                             syms.insert(dst, Sym::Module);
                         }
                         _ => {
@@ -851,9 +886,14 @@ impl<'a> Gen<'a> {
                 }
                 28..=47 => {
                     if let Some(s) = self.pick_slot(&syms, |_| true) {
+                        if syms[&s] == Sym::Proof && self.rng.bool() {
+                            ops.push(Op::DropProof { slot: s });
+                            syms.remove(&s);
+                            continue;
+                        }
                         ops.push(Op::Drop { t: Tgt::Slot(s) });
                         if self.rng.chance(1, 3) {
-                            if matches!(syms[&s], Sym::Bucket | Sym::Vault) {
+                            if matches!(syms[&s], Sym::Bucket | Sym::EmptyBucket | Sym::Vault) {
                                 ops.push(Op::Amount { t: Tgt::Slot(s) });
                             } else {
                                 ops.push(Op::GetInfo { t: Tgt::Slot(s) });
@@ -938,7 +978,7 @@ impl<'a> Gen<'a> {
                 }
                 82..=85 => match self.rng.below(3) {
                     0 => {
-                        if let Some(s) = self.pick_slot(&syms, |s| matches!(s, Sym::Bucket | Sym::Vault)) {
+                        if let Some(s) = self.pick_slot(&syms, |s| matches!(s, Sym::Bucket | Sym::EmptyBucket | Sym::Vault)) {
                             ops.push(Op::Amount { t: Tgt::Slot(s) });
                         }
                     }
@@ -946,13 +986,13 @@ impl<'a> Gen<'a> {
                         if let Some(s) = self.pick_slot(&syms, |s| *s == Sym::Bucket) {
                             if !lent.contains(&s) {
                                 ops.push(Op::Take { from: Tgt::Slot(s), amount: Decimal::from(self.rng.below(3) as u32), dst });
-                                syms.insert(dst, Sym::Bucket);
+                                syms.insert(dst, Sym::EmptyBucket);
                                 next += 1;
                             }
                         }
                     }
                     _ => {
-                        if let (Some(v), Some(b)) = (self.pick_slot(&syms, |s| *s == Sym::Vault), self.pick_slot(&syms, |s| *s == Sym::Bucket)) {
+                        if let (Some(v), Some(b)) = (self.pick_slot(&syms, |s| *s == Sym::Vault), self.pick_slot(&syms, |s| matches!(s, Sym::Bucket | Sym::EmptyBucket))) {
                             if !lent.contains(&b) && !lent.contains(&v) {
                                 ops.push(Op::VaultPut { vault: Tgt::Slot(v), bucket: b });
                                 syms.remove(&b);
@@ -962,7 +1002,7 @@ impl<'a> Gen<'a> {
                 },
                 86..=90 => match self.rng.below(5) {
                     0 | 1 => {
-                        if let Some(s) = self.pick_slot(&syms, |s| !matches!(s, Sym::Res(_) | Sym::Ref | Sym::Proof | Sym::Bucket)) {
+                        if let Some(s) = self.pick_slot(&syms, |s| !matches!(s, Sym::Res(_) | Sym::Ref | Sym::Proof | Sym::Bucket | Sym::EmptyBucket | Sym::Module)) {
                             if lent.contains(&s) {
                                 continue;
                             }
@@ -1000,13 +1040,21 @@ impl<'a> Gen<'a> {
                     if ctx.depth >= 2 {
                         continue;
                     }
-                    let owned: Vec<u8> = syms.iter().filter(|(k, s)| !lent.contains(k) && !matches!(s, Sym::Ref)).map(|(k, _)| *k).collect();
+                    // (proofs received from the manifest are restricted: they cannot be moved further down)
+                    let owned: Vec<u8> = syms.iter().filter(|(k, s)| !lent.contains(k) && !matches!(s, Sym::Ref | Sym::Proof)).map(|(k, _)| *k).collect();
                     let all: Vec<u8> = syms.keys().copied().collect();
                     let give = self.subset(&owned, 3);
-                    let lend: Vec<u8> = self.subset(&all, 2).into_iter().filter(|s| !give.contains(s)).collect();
+                    // non-global references in arguments are treated as direct-access references by the kernel
+                    // (the call fails): lend only rarely, as a terminal step
+                    let lend: Vec<u8> = if self.terminal_budget > 0 && self.rng.chance(1, 6) {
+                        self.terminal_budget -= 1;
+                        self.subset(&all, 2).into_iter().filter(|s| !give.contains(s) && !matches!(syms[s], Sym::Ref)).collect()
+                    } else {
+                        vec![]
+                    };
                     let inputs: Vec<Sym> = give.iter().map(|s| syms[s]).chain(lend.iter().map(|_| Sym::Ref)).collect();
                     // lent nodes keep their kind for the callee's attacks: model them by their original symbol
-                    let inputs_for_attack: Vec<Sym> = give.iter().map(|s| syms[s]).chain(lend.iter().map(|s| syms[s])).collect();
+                    let inputs_for_attack: Vec<Sym> = give.iter().map(|s| syms[s]).chain(lend.iter().map(|s| syms[s])).chain(std::iter::repeat(Sym::Ref).take(AMBIENT)).collect();
                     let sublen = 2 + self.rng.usize_below(7);
                     let kind = self.rng.below(10);
                     let (op_builder, sub_ctx): (Box<dyn Fn(Vec<u8>, Vec<u8>, Vec<u8>, u8) -> Op>, GCtx) = if kind < 5 {
@@ -1033,7 +1081,7 @@ impl<'a> Gen<'a> {
                     let _ = inputs;
                     let (sub, nret) = self.script(sub_ctx, &inputs_for_attack, sublen);
                     // the callee sees lent nodes as borrowed: nothing to adjust in the script itself
-                    let nb = give.iter().filter(|s| syms[s] == Sym::Bucket).count();
+                    let nb = give.iter().filter(|s| matches!(syms[s], Sym::Bucket | Sym::EmptyBucket)).count();
                     ops.push(op_builder(scrypto_encode(&sub).unwrap(), give.clone(), lend, dst));
                     for g in &give {
                         syms.remove(g);
@@ -1045,10 +1093,28 @@ impl<'a> Gen<'a> {
                 }
             }
         }
+        // consume pending reservations so that the transaction can commit
+        let pending: Vec<(u8, Sym)> = syms.iter().filter(|(k, s)| matches!(s, Sym::Res(Some(_))) && !lent.contains(k)).map(|(k, s)| (*k, *s)).collect();
+        for (slot, s) in pending {
+            if next > 230 || self.rng.chance(1, 10) {
+                break;
+            }
+            let Sym::Res(Some(p)) = s else { continue };
+            if p == me {
+                ops.push(Op::NewObject { dst: next, blueprint: BP.to_string(), nfields: 2, payload: vec![1] });
+                ops.push(Op::Globalize { t: Tgt::Slot(next), reservation: Some(slot), modules: 3 });
+                next += 1;
+            } else {
+                let sub = vec![Op::NewObject { dst: 10, blueprint: BP.to_string(), nfields: 2, payload: vec![2] }, Op::Globalize { t: Tgt::Slot(10), reservation: Some(0), modules: 3 }];
+                ops.push(Op::CallPeer { peer: self.ids.g[p], script: scrypto_encode(&sub).unwrap(), give: vec![slot], lend: vec![], dst: next });
+                next += 1;
+            }
+            syms.remove(&slot);
+        }
         // explicit returns (only meaningful for sub-scripts)
         let mut nret = 0;
         if ctx.depth > 0 && self.rng.bool() {
-            let c: Vec<u8> = syms.iter().filter(|(k, s)| !lent.contains(k) && !matches!(s, Sym::Ref | Sym::Bucket)).map(|(k, _)| *k).collect();
+            let c: Vec<u8> = syms.iter().filter(|(k, s)| !lent.contains(k) && !matches!(s, Sym::Ref | Sym::Bucket | Sym::EmptyBucket)).map(|(k, _)| *k).collect();
             let r = self.subset(&c, 2);
             nret = r.len();
             if !r.is_empty() {
@@ -1062,20 +1128,20 @@ impl<'a> Gen<'a> {
 
 fn gen_launch(rng: &mut Rng, ids: &Ids) -> Launch {
     let mut g = Gen { rng, ids, terminal_budget: 0 };
-    g.terminal_budget = if g.rng.chance(2, 5) { 1 } else { 0 };
+    g.terminal_budget = if g.rng.chance(3, 10) { 1 } else { 0 };
     let r = g.rng.below(100);
     let (callee, ctx) = if r < 35 {
         (Callee::Method(ids.g[0]), GCtx { pkg: 0, is_method: true, is_inner: false, depth: 0 })
     } else if r < 70 {
         (Callee::Method(ids.g[1]), GCtx { pkg: 1, is_method: true, is_inner: false, depth: 0 })
-    } else if r < 80 {
+    } else if r < 88 {
         (Callee::Method(ids.g_b), GCtx { pkg: 0, is_method: true, is_inner: false, depth: 0 })
     } else {
         let p = g.rng.usize_below(2);
         (Callee::Function(ids.pkg[p]), GCtx { pkg: p, is_method: false, is_inner: false, depth: 0 })
     };
     let nb = g.rng.below(3) as usize;
-    let buckets: Vec<Decimal> = (0..nb).map(|_| Decimal::from(g.rng.range(0, 5) as u32)).collect();
+    let buckets: Vec<Decimal> = (0..nb).map(|_| Decimal::from(g.rng.range(10, 50) as u32)).collect();
     let proofs = if g.rng.chance(1, 3) { 1 } else { 0 };
     let mut reservations = vec![];
     if g.rng.chance(1, 4) {
@@ -1092,17 +1158,14 @@ fn gen_launch(rng: &mut Rng, ids: &Ids) -> Launch {
     for (p, _) in &reservations {
         inputs.push(Sym::Res(if *p == ids.pkg[0] { Some(0) } else if *p == ids.pkg[1] { Some(1) } else { None }));
     }
+    inputs.extend(std::iter::repeat(Sym::Ref).take(AMBIENT));
     let len = 12 + g.rng.usize_below(18);
-    let (mut script, _) = g.script(ctx, &inputs, len);
-    // consume an own-package reservation at the end so that the transaction can commit
-    for (i, (p, _)) in reservations.iter().enumerate() {
-        if *p == ids.pkg[ctx.pkg] && g.rng.chance(3, 4) {
-            let slot = (nb + proofs + i) as u8;
-            script.push(Op::NewObject { dst: 250, blueprint: BP.to_string(), nfields: 2, payload: vec![1] });
-            script.push(Op::Globalize { t: Tgt::Slot(250), reservation: Some(slot), modules: 3 });
-        }
-    }
-    Launch { callee, script, buckets, proofs, reservations, refs: vec![] }
+    let (script, _) = g.script(ctx, &inputs, len);
+    Launch { callee, script, buckets, proofs, reservations, refs: ambient(ids) }
+}
+
+fn ambient(ids: &Ids) -> Vec<GlobalAddress> {
+    vec![ids.g[0], ids.g[1], ids.g_b, ids.pkg[0].into(), ids.pkg[1].into(), ids.res.into()]
 }
 
 fn ids_of(w: &PWorld) -> Ids {
@@ -1209,7 +1272,9 @@ pub fn smoke(args: &Args) -> i32 {
         let launch = gen_launch(&mut rng, &ids);
         let r = world.launch(&mut shard, "smoke", &launch, None);
         let v = judge_tx(&mut shard, &world, &launch, &r);
-        if k < 3 || v > 0 {
+        let want = std::env::var("SMOKE_GREP").ok();
+        let hit = want.as_ref().map(|w| format!("{:?}", r.trace).contains(w.as_str()) || r.exec.receipt.as_ref().map(|x| rv_ledger::outcome_class(x).contains(w.as_str())).unwrap_or(false)).unwrap_or(false);
+        if (want.is_none() && k < 3) || v > 0 || hit {
             println!("--- script {k}: {:?}", launch.script.iter().map(short_op).collect::<Vec<_>>());
             for ev in &r.trace {
                 match ev {
